@@ -45,7 +45,11 @@ Inductive c01case :=
    p in [0,3^n) (digit i of p in base 3 = nothing / value 100+i / tombstone at node i+1) and
    every queried version v in 1..n, in that order, one observation code:
    0 = not found, 1 = error, 2+u = the value of version u *)
-| CEnum (g : dagl) (n : nat) (codes : list N).
+| CEnum (g : dagl) (n : nat) (codes : list N)
+(* the full read path (real storage keys, VersionFromKey, kvVersions map, findMatch) over a DAG
+   whose version ids are arbitrary, not in topological order: range-read path (VersionedKeyValue)
+   and point-read path (GetBestKeyVersion) *)
+| CDag2 (g : dagl) (keys : list (V * entry)) (v : V) (fuel : nat) (okv obest : obs).
 
 Fixpoint place_entries (n : nat) (i : N) (p : N) : list (V * entry) :=
   match n with
@@ -144,6 +148,9 @@ Definition model_ok (c : c01case) : bool :=
   | CEnum g n codes =>
     list_eqb N.eqb codes
       (enum_codes (fun v keys => read (parents_of g) (kvv_of keys) (S n) (S n) v) n (3 ^ n) 0)
+  | CDag2 g keys v fuel okv obest =>
+    let r := read (parents_of g) (kvv_of keys) fuel fuel v in
+    obs_matches okv r && obs_matches_http obest r
   end.
 
 (* property-level oracle: every observed read equals the frontier read of the specification,
@@ -184,6 +191,9 @@ Definition spec_class (c : c01case) : nat :=
     if list_eqb N.eqb codes
          (enum_codes (fun v keys => frontier_read (parents_of g) (kvv_of keys) (S n) v) n (3 ^ n) 0)
     then 0%nat else 1%nat
+  | CDag2 g keys v fuel okv obest =>
+    let r := frontier_read (parents_of g) (kvv_of keys) fuel v in
+    if obs_allowed okv r && obs_allowed obest r then 0%nat else 1%nat
   end.
 
 Fixpoint classify_from (i : nat) (l : list c01case) : list (nat * nat) :=
